@@ -12,6 +12,7 @@ mod corpus;
 mod sup;
 mod c_pipe;
 mod c_gen;
+mod c_parse;
 
 fn main() {
     colored::control::set_override(false);
@@ -27,6 +28,7 @@ fn main() {
         "replay-lex" => c_lex::replay(rest),
         "record-lex" => c_lex::record(rest),
         "record-relayout" => c_lex::record_relayout(rest),
+        "replay-parse" => c_parse::replay(rest),
         "gen-programs" => c_gen::main(rest),
         "record-pipeline" => c_pipe::record(rest),
         "replay-pipeline" => c_pipe::replay(rest),
